@@ -128,6 +128,8 @@ def world_to_json(world):
     for p, e in world.items():
         if e["t"] == "f":
             out[p] = {"t": "f", "mode": e.get("mode", 0o644), **enc_bytes(e["data"])}
+            if e.get("subst"):
+                out[p]["subst"] = True
         else:
             out[p] = dict(e)
     return out
@@ -138,6 +140,8 @@ def world_from_json(js):
     for p, e in js.items():
         if e["t"] == "f":
             out[p] = {"t": "f", "mode": e.get("mode", 0o644), "data": dec_bytes(e)}
+            if e.get("subst"):
+                out[p]["subst"] = True
         else:
             out[p] = dict(e)
     return out
@@ -156,7 +160,7 @@ def materialise(world, root):
         if e["t"] == "f":
             os.makedirs(os.path.dirname(full), exist_ok=True)
             with open(full, "wb") as f:
-                f.write(e["data"])
+                f.write(e["data"].replace(b"@ROOT@", root.encode()) if e.get("subst") else e["data"])
             os.chmod(full, e.get("mode", 0o644))
         elif e["t"] == "l":
             os.makedirs(os.path.dirname(full), exist_ok=True)
